@@ -3,6 +3,8 @@
 # extraction of the executable models and the OCaml driver. With argument "model" only the model part is rebuilt.
 set -e
 V=/verif
+# tie T: regenerate the accessor models / layouts / inventories from /repo's current sources into coq/gen
+python3 -c "import sys; sys.path.insert(0,'$V/lib'); import runner; runner.gen_sync()"
 cd $V/coq
 [ -f Makefile ] || coq_makefile -f _CoqProject -o Makefile >/dev/null
 coq_makefile -f _CoqProject -o Makefile >/dev/null
